@@ -436,6 +436,50 @@ func propC06(c *Ctx) {
 			}
 		}
 	}
+	// mixed numeric operands: the second operand is converted to the first operand's type by the HOST conversion of that
+	// type (one rounding: float32(int64), not float32(float64(int64))), under both managers where the type-safe one permits
+	// the widening; then the IEEE operation of the first operand's type applies
+	for _, a := range all {
+		if a.Type() != variants.Float && a.Type() != variants.Double {
+			continue
+		}
+		for _, b := range all {
+			if b.Type() != variants.Integer && b.Type() != variants.Long && !(a.Type() == variants.Double && b.Type() == variants.Float) {
+				continue
+			}
+			for _, m := range []string{"u", "s"} {
+				for _, name := range []string{"add", "sub", "mul", "div"} {
+					got := runOpCase(c, m, opIndex(name), a, b)
+					want := ""
+					if a.Type() == variants.Float {
+						x := a.AsFloat()
+						var y float32
+						if b.Type() == variants.Integer {
+							y = float32(b.AsInteger())
+						} else {
+							y = float32(b.AsLong())
+						}
+						want = "ok " + encF32(map[string]float32{"add": x + y, "sub": x - y, "mul": x * y, "div": x / y}[name])
+					} else {
+						x := a.AsDouble()
+						var y float64
+						switch b.Type() {
+						case variants.Integer:
+							y = float64(b.AsInteger())
+						case variants.Long:
+							y = float64(b.AsLong())
+						default:
+							y = float64(b.AsFloat())
+						}
+						want = "ok " + encF64(map[string]float64{"add": x + y, "sub": x - y, "mul": x * y, "div": x / y}[name])
+					}
+					if got != want {
+						c.fail(Failure{Kind: "oracle", Op: fmt.Sprintf("op %s %s %s %s", m, name, encArg(a), encArg(b)), Impl: got, Note: "the second operand converted by the host conversion of the first operand's type, then the IEEE operation, gives " + want})
+					}
+				}
+			}
+		}
+	}
 	// indexing follows list semantics, for every string and array of the pool and every small index (not sampled); strings
 	// with bytes that are no valid UTF-8 have the replacement character at those places (what ranging over them gives)
 	withBytes := append(append([]*variants.Variant(nil), all...), vStr("a\xe9b"), vStr("\xff"), vStr("ab\x80"), vStr("\xe4\xb8"), vStr("x\xf0\x9f\x98"), vStr("é\xe9"))
